@@ -5,6 +5,14 @@ VERIF = os.path.dirname(os.path.dirname(os.path.abspath(__file__)))
 props = [json.loads(l) for l in open(os.path.join(VERIF, "properties.jsonl"))]
 
 CLAIMED = {
+    "C18": dict(
+        text="Ols.tla lays out the VAR regressors, selects exactly the complete periods and solves the normal equations exactly (LinSolve); TLC "
+             "verifies the solution, the orthogonality of residuals to every regressor and the recovery of noise-free VARs. Every scenario is "
+             "replayed through RedVAR.estimate (coefficients, residuals, covariance with and without dof correction), simulate with the estimated "
+             "residuals, and the companion-form mean, eigenvalues and autocovariances.",
+        note="Trusted: TLC, numpy (companion-form eigenvalues/Lyapunov of the spec's exact coefficients). Bounds: <= 2 endogenous, <= 1 exogenous, order <= 2, "
+             "T <= 8, 6 missing patterns. Priors/resampling not covered. One known finding (simulate with exogenous variables and order >= 2).",
+        design="5/C18", technique="TLA+ spec (Ols over LinSolve) model-checked by TLC; every TLC-computed scenario replayed into irispie"),
     "C14": dict(
         text="Hp.tla states the constrained Hodrick-Prescott problem and solves its optimality conditions exactly (fraction-free elimination in "
              "TLA+); TLC verifies on every scenario that the solution satisfies the KKT system, meets the constraints exactly and returns a straight "
